@@ -302,6 +302,9 @@ package twig
 //@ func (*ForNode).renderForLoop props: C18
 //@   loop 3 invariant[C18] loopMapFresh()
 //@   loop 5 invariant[C18] loopMapFresh()
+// (what sortedMapKeys says about every key is restated for the key at hand where the loop reads it: the
+// goal behind key.Interface() was proved by one solver only, close to the time limit)
+//@   flag instantiate yes
 //@   loop 7 invariant[C18] loopMapFresh()
 
 // ---------------------------------------------------------------- safety sweep (C05)
